@@ -388,10 +388,12 @@ Qed.
 
 Lemma posb_all_zero c : Forall (fun x => (0 <= x)%Z) c -> posb c = negb (all_zero c).
 Proof.
-  unfold posb, all_zero. induction 1 as [|x c Hx Hc IH]; [reflexivity|]. simpl.
-  pose proof (zsum_nonneg c Hc). destruct (Z.eqb_spec 0 x) as [<-|Hne]; simpl.
-  - rewrite <- IH. reflexivity.
-  - apply Z.ltb_lt. lia.
+  unfold posb, all_zero. induction 1 as [|x c Hx Hc IH]; [reflexivity|].
+  change (zsum (x :: c)) with (x + zsum c)%Z.
+  change (forallb (Z.eqb 0) (x :: c)) with (Z.eqb 0 x && forallb (Z.eqb 0) c).
+  pose proof (zsum_nonneg c Hc). destruct (Z.eqb_spec 0 x) as [<-|Hne].
+  - cbn [andb]. rewrite Z.add_0_l. exact IH.
+  - cbn [andb negb]. apply Z.ltb_lt. lia.
 Qed.
 
 Lemma map_ext_Forall {A B} (f g : A -> B) l : Forall (fun x => f x = g x) l -> map f l = map g l.
@@ -411,13 +413,18 @@ Section Finish.
   Let m2 := map posb (transpose C vs2).
   Let T2 := filter_mask m2 (other a) T1.
 
+  Lemma T1_other_vecs : axis_vecs (other a) T1 = transpose C vs2.
+  Proof.
+    assert (W1 : wf T1) by (apply wf_filter_mask; exact WK).
+    rewrite (axis_vecs_other a T1 W1). unfold T1. rewrite filter_mask_n_other, (axis_vecs_filter_same m1 a K WK).
+    reflexivity.
+  Qed.
+
   Lemma finish_eq : drop_nonpositive (other a) (drop_nonpositive a K) = T2.
   Proof.
     rewrite (drop_nonpositive_mask a K WK). fold vs1 m1 T1.
     assert (W1 : wf T1) by (apply wf_filter_mask; exact WK).
-    rewrite (drop_nonpositive_mask (other a) T1 W1).
-    rewrite (axis_vecs_other a T1 W1). unfold T1 at 2 3. rewrite filter_mask_n_other, (axis_vecs_filter_same m1 a K WK).
-    reflexivity.
+    rewrite (drop_nonpositive_mask (other a) T1 W1). rewrite T1_other_vecs. reflexivity.
   Qed.
 
   Lemma finish_wf : wf T2.
@@ -440,13 +447,6 @@ Section Finish.
 
   Lemma finish_vecs_axis : axis_vecs a T2 = map (select m2) vs2.
   Proof. unfold T2. rewrite axis_vecs_filter_other. unfold T1. rewrite (axis_vecs_filter_same m1 a K WK). reflexivity. Qed.
-
-  Lemma T1_other_vecs : axis_vecs (other a) T1 = transpose C vs2.
-  Proof.
-    assert (W1 : wf T1) by (apply wf_filter_mask; exact WK).
-    rewrite (axis_vecs_other a T1 W1). unfold T1. rewrite filter_mask_n_other, (axis_vecs_filter_same m1 a K WK).
-    reflexivity.
-  Qed.
 
   Lemma finish_vecs_other : axis_vecs (other a) T2 = filter posb (axis_vecs (other a) T1).
   Proof.
